@@ -401,20 +401,25 @@ func init() {
 			if nm, ok := unaryv.(LNumber); ok {
 				// +inline-call reg.Set RA -nm
 			} else {
-				op := L.metaOp1(unaryv, "__unm")
-				if op.Type() == LTFunction {
-					reg.Push(op)
-					reg.Push(unaryv)
-					L.Call(1, 1)
-					// +inline-call reg.Set RA reg.Pop()
-				} else if str, ok1 := unaryv.(LString); ok1 {
+				// Lua 5.1 (lvm.c OP_UNM -> Arith): a string convertible to a number is negated
+				// before any __unm handler is looked for
+				converted := false
+				if str, ok1 := unaryv.(LString); ok1 {
 					if num, err := parseNumber(string(str)); err == nil {
+						converted = true
 						// +inline-call reg.Set RA -num
+					}
+				}
+				if !converted {
+					op := L.metaOp1(unaryv, "__unm")
+					if op.Type() == LTFunction {
+						reg.Push(op)
+						reg.Push(unaryv)
+						L.Call(1, 1)
+						// +inline-call reg.Set RA reg.Pop()
 					} else {
 						L.RaiseError("__unm undefined")
 					}
-				} else {
-					L.RaiseError("__unm undefined")
 				}
 			}
 			return 0
